@@ -1,7 +1,7 @@
 PROP = dict(level="exploration", parts=[
-    cxx("pair2", "C03_nblist", ninja=CSG, shards=(16, 16), args=["--part", "pair2"]),
-    cxx("triple3", "C03_nblist", ninja=CSG, shards=(16, 16), args=["--part", "triple3"]),
-    cxx("dense", "C03_nblist", ninja=CSG, shards=(8, 16), args=["--part", "dense"]),
+    cxx("pair2", "C03_nblist", ninja=CSG, shards=(16, 16), args=["--part", "pair2"], timeout=dict(quick=900, thorough=10800)),
+    cxx("triple3", "C03_nblist", ninja=CSG, shards=(16, 16), args=["--part", "triple3"], timeout=dict(quick=900, thorough=10800)),
+    cxx("dense", "C03_nblist", ninja=CSG, shards=(8, 16), args=["--part", "dense"], timeout=dict(quick=900, thorough=10800)),
     cxx("excl", "C03_nblist", ninja=CSG, shards=(4, 8), args=["--part", "excl"]),
 ])
 TEXT = dict(engine="bsx", design_ref="DESIGN.md §3 C03",
